@@ -224,8 +224,9 @@ impl Read for Mock {
                     return Err(io::Error::new(io::ErrorKind::WouldBlock, "no data"));
                 }
                 if buf.is_empty() {
-                    // the Read contract allows this; the caller sees Ok(0)
-                    self.log.push("r:e".into());
+                    // the implementation handed the transport a zero-length buffer: it will see
+                    // Ok(0) and take it for EOF although the transport has more data
+                    self.log.push("r:z".into());
                     return Ok(0);
                 }
                 buf[..n].copy_from_slice(&self.inbound[self.rpos..self.rpos + n]);
